@@ -427,6 +427,27 @@ def row_equation(W, S, x, stock, k, r):
     return W.num_eq(W.sum1("j", 0, k, lambda j: sf(k, j, *r) * x(j, *r)) + sf(k, k, *r) * x(k, *r), stock(k, *r))
 
 
+def _solver_workspace(L, S):
+    """the array the solver loop fills: the local named inflow_whole_period, or -- if locals were renamed -- the
+    unique local symbolic array of the stock's shape that was allocated inside the function"""
+    X = L.get("inflow_whole_period")
+    if isinstance(X, symnp.SymArr):
+        return X
+    want = 1 + len(S.esizes)
+    bybuf = {}
+    for v in L.values():
+        if not isinstance(v, symnp.SymArr) or v.ndim != want or v._buf.origin.startswith("input"):
+            continue
+        if v._buf is getattr(getattr(S.s.inflow, "values", None), "_buf", None):
+            continue
+        whole = len(v._vaxes) == v._buf.ndim and not v._fixed and all(a[0] == "b" and a[1] == k and isinstance(a[2], int) and a[2] == 0 and a[3] is v._buf.shape[k] for k, a in enumerate(v._vaxes))
+        if whole:
+            bybuf[v._buf.id] = v
+    if len(bybuf) != 1:
+        raise core.Unsupported("loop contract: the array filled by the solver loop could not be identified (loop structure changed)")
+    return next(iter(bybuf.values()))
+
+
 class ManualSolverLoop:
     """loop contract for the forward substitution in StockDrivenDSM._compute_inflow_manual
     invariant Inv(i):  for all k < i and all r: the row equation k holds for inflow_whole_period"""
@@ -436,10 +457,7 @@ class ManualSolverLoop:
         self.pre = None
 
     def _X(self, L):
-        X = L.get("inflow_whole_period")
-        if not isinstance(X, symnp.SymArr):
-            raise core.Unsupported("loop contract: local 'inflow_whole_period' not found (loop structure changed)")
-        return X
+        return _solver_workspace(L, self.S)
 
     def entry(self, L, lo):
         self.W.prove("manual.loop.starts_at_zero", self.W.size_eq(lo, 0) if not isinstance(lo, int) else lo == 0, kind="invariant")
@@ -1368,10 +1386,7 @@ class LapackColumnsLoop:
         self.calls = calls if calls is not None else []
 
     def _X(self, L):
-        X = L.get("inflow_whole_period")
-        if not isinstance(X, symnp.SymArr):
-            raise core.Unsupported("loop contract: local 'inflow_whole_period' not found (loop structure changed)")
-        return X
+        return _solver_workspace(L, self.S)
 
     def havoc(self, L):
         self.name, self.f = symnp.havoc(self._X(L), "XL")
